@@ -154,9 +154,15 @@ def Wire.close (o : Opts) (resp : Bool) (pol : Policy) (f : Bytes → Ret) (w : 
   let r := closeReader w.rs
   w.deliverItems o resp pol f r.1 r.2
 
+/-- expected_http_body_size of a message with that framing -/
+def Framing.exp : Framing → ExpSize
+  | .cl n => .known n
+  | .chunked => .unknown
+  | .untilEof => .untilEof
+
 /-- the head arrives (its own delivery), then the body segments, then optionally the peer's close -/
 def wireRun (o : Opts) (resp : Bool) (pol : Policy) (f : Bytes → Ret) (fr : Framing) (segs : List Bytes) (close : Bool) : Wire :=
-  let exp := match fr with | .cl n => ExpSize.known n | .chunked => ExpSize.unknown | .untilEof => ExpSize.untilEof
+  let exp := fr.exp
   let endS := decide (fr = .cl 0)
   let s0 := startReader fr
   let r0 := run o resp pol f init (Ev.headers exp endS :: (eventsOf s0.2).1)
